@@ -3,6 +3,7 @@ import copy
 import itertools
 import random
 
+from ..engines import noise
 from ..gen import entries as gentries, jsonvals, keys as gkeys
 from ..monitors import boundary, probes
 from ..refs import canonjson, ed25519, models
@@ -306,6 +307,8 @@ def run_shard(spec, rec, lib):
     for i in range(spec["count"]):
         case = gen_case(rng)
         check_case(case, rec, lib, sp if i % 2 == 0 else None)
+        if i % 20 == 5:
+            noise.tick(lib, rng, spec.get("scratch"))
         if i < 2:
             rec.sample({"payload": case["payload"], "signers": [s[:8] for s in case["seeds"]],
                         "pre_existing": [[k[:12], v] for k, v in case["pre"]]})
